@@ -97,15 +97,34 @@ def plain(v):
 
 
 def pyclass(v):
-    """Class names recursively (used by C13)."""
+    """Class names recursively (used by C13): a string for a scalar, ("L", name, (elements...))
+    for a list, ("M", name, ((key, value)...)) for a map."""
     t = celtype_of(v)
     name = type(v).__name__ if not isinstance(v, type) else "type:" + v.__name__
     if t == "list":
-        return (name, tuple(pyclass(x) for x in (list.__iter__(v) if isinstance(v, list) else v)))
+        return ("L", name, tuple(pyclass(x) for x in (list.__iter__(v) if isinstance(v, list) else v)))
     if t == "map":
         items = sorted(((pyclass(k), pyclass(dict.__getitem__(v, k))) for k in dict.keys(v)), key=repr)
-        return (name, tuple(items))
+        return ("M", name, tuple(items))
     return name
+
+
+def top_class(pc):
+    return pc if isinstance(pc, str) else pc[1]
+
+
+def all_classes(pc):
+    """flat list of every class name in a pyclass tree"""
+    if isinstance(pc, str):
+        return [pc]
+    out = [pc[1]]
+    if pc[0] == "L":
+        for x in pc[2]:
+            out += all_classes(x)
+    else:
+        for k, v in pc[2]:
+            out += all_classes(k) + all_classes(v)
+    return out
 
 
 def V(v):
